@@ -238,6 +238,8 @@ def run(ctx):
     c14.check_get_av(ctx)
     # the composite (interp) curve: each filter wavelength paired with that filter's aperture
     c13.check_variable(ctx)
+    from . import c12
+    c12.check_get_sed(ctx)           # 'draws that model's SED': the cube slice found by name on the full model axis
 
 
 PL = 'sedfitter/plot.py'
